@@ -7,6 +7,8 @@ package main
 import (
 	"bytes"
 	"fmt"
+	"os"
+	"os/exec"
 	"runtime/debug"
 	"strconv"
 	"strings"
@@ -94,7 +96,15 @@ func runC16(c *runCtx) {
 	for _, d := range []int{1, 2, 3, 10, 100} {
 		c.jsonCase("depth-small", closed("mixed", d), 0)
 	}
-	// bombs
+	runBombs(c, "C16")
+}
+
+// bombs: each one is detected in a child process (a Go stack overflow is fatal and cannot be recovered): the child
+// prints the result, its death is the finding.  Also long runs of white space and of other single bytes in front
+// of / inside a document (recursion anywhere outside the guarded scanner shows up the same way).
+func runBombs(c *runCtx, prop string) {
+	self, _ := os.Executable()
+	shapes := []string{"arr", "obj", "mixed", "padded", "ws-pad", "nl-pad", "ws-inside"}
 	depths := []int{10000, 100000, 1000000}
 	if c.tier == "thorough" {
 		depths = append(depths, 10000000)
@@ -102,31 +112,38 @@ func runC16(c *runCtx) {
 	for _, sh := range shapes {
 		for _, d := range depths {
 			for _, cl := range []bool{false, true} {
-				var x []byte
-				if cl {
-					x = closed(sh, d)
-				} else {
-					x = bomb(sh, d)
-				}
-				if !c.mine(x[:64], []byte(strconv.Itoa(d)), []byte(sh)) {
+				if !c.mine([]byte(sh), []byte(strconv.Itoa(d)), []byte(fmt.Sprint(cl))) {
 					continue
 				}
 				for _, lim := range []uint32{0, 1<<32 - 1} {
-					c.watch(fmt.Sprintf("bomb shape=%s depth=%d closed=%v limit=%d", sh, d, cl, lim))
-					m, pan := detectAt(x, lim)
+					desc := fmt.Sprintf("shape=%s depth=%d closed=%v limit=%d", sh, d, cl, lim)
+					c.watch("bomb " + desc)
+					cmd := exec.Command(self, "bomb-child", sh, strconv.Itoa(d), fmt.Sprint(cl), strconv.Itoa(int(lim)))
+					outb, err := cmd.Output()
 					c.started.Store(0)
-					res := "PANIC"
-					if pan == nil && m != nil {
-						res = bareType(m.String())
+					res := strings.TrimSpace(string(outb))
+					c.stats.note("bomb-"+sh, []byte(desc), d, true)
+					c.stats.sample("bomb " + desc + " -> " + res)
+					if err != nil || !strings.HasPrefix(res, "OK ") {
+						tail := ""
+						if ee, ok := err.(*exec.ExitError); ok {
+							st := string(ee.Stderr)
+							if i := strings.Index(st, "fatal error"); i >= 0 {
+								st = st[i:]
+							}
+							tail = strings.SplitN(st, "\n", 2)[0]
+						}
+						c.propfail(prop, fmt.Sprintf("Detect kills the process on a nesting / padding bomb (%s): %v %s %s", desc, err, res, tail))
+						continue
 					}
-					isJSON := magic.JSON(x, lim) || magic.NdJSON(x, lim) || strings.Contains(res, "json")
-					c.stats.note("bomb-"+sh, []byte(fmt.Sprintf("%s:%d:%v:%d", sh, d, cl, lim)), len(x), true)
-					c.stats.sample(fmt.Sprintf("bomb shape=%s depth=%d closed=%v limit=%d -> %s", sh, d, cl, lim, res))
-					if pan != nil {
-						c.propfail("C16", fmt.Sprintf("Detect panics on a nesting bomb: shape=%s depth=%d closed=%v limit=%d: %v", sh, d, cl, lim, pan))
+					f := strings.Fields(res)
+					wantJSON := strings.HasSuffix(sh, "pad") || sh == "ws-inside" // padding does not nest: these are small valid documents
+					isJSON := f[1] == "1"
+					if isJSON && !wantJSON {
+						c.propfail("C16", fmt.Sprintf("nesting bomb beyond the cap reported as JSON: %s result=%s", desc, f[2]))
 					}
-					if isJSON {
-						c.propfail("C16", fmt.Sprintf("nesting bomb beyond the cap reported as JSON: shape=%s depth=%d closed=%v limit=%d result=%s", sh, d, cl, lim, res))
+					if wantJSON && cl && lim == 0 && !isJSON {
+						c.propfail("C08", fmt.Sprintf("valid document with %d bytes of padding not reported as JSON: %s result=%s", d, desc, f[2]))
 					}
 				}
 			}
@@ -134,7 +151,45 @@ func runC16(c *runCtx) {
 	}
 }
 
+func bombInput(sh string, d int, cl bool) []byte {
+	switch sh {
+	case "ws-pad":
+		return []byte(strings.Repeat(" ", d) + "[{\"k\": [1, 2, 3]}]" + strings.Repeat(" ", d))
+	case "nl-pad":
+		return []byte(strings.Repeat("\n", d) + "{\"a\":1}" + strings.Repeat("\r\n", d/2))
+	case "ws-inside":
+		return []byte("[1," + strings.Repeat(" \t", d/2) + "2]")
+	}
+	if cl {
+		return closed(sh, d)
+	}
+	return bomb(sh, d)
+}
+
+func cmdBombChild(args []string) {
+	debug.SetMaxStack(16 << 20) // 16 MB: recursion that grows with the input overflows this
+	d, _ := strconv.Atoi(args[1])
+	lim, _ := strconv.Atoi(args[3])
+	x := bombInput(args[0], d, args[2] == "true")
+	m, pan := detectAt(x, uint32(lim))
+	if pan != nil || m == nil {
+		fmt.Printf("PANIC %v\n", pan)
+		return
+	}
+	j := "0"
+	if magic.JSON(x, uint32(lim)) || magic.NdJSON(x, uint32(lim)) || strings.Contains(m.String(), "json") {
+		j = "1"
+	}
+	fmt.Printf("OK %s %s\n", j, bareType(m.String()))
+}
+
 func init() {
+	commands["bomb-child"] = cmdBombChild
+	commands["run-bombs"] = func(args []string) {
+		c := parseRunArgs(args)
+		runBombs(c, c.prop)
+		c.finish()
+	}
 	commands["run-c16"] = func(args []string) {
 		c := parseRunArgs(args)
 		runC16(c)
